@@ -398,6 +398,8 @@ class C10(Prop):
         for v in (('map', []), I(1), A([]), A([I(1)]), A([('map', [])]), ('null',)):
             ops.append(mk('dec CoseKeySet b' + refcbor.encode(v).hex(), k='keyset')); ops.append(mk('dec CoseKey b' + refcbor.encode(v).hex(), k='key'))
         ops += dec_ops(g, r, budget(tier, 2000, 40000), types=['CoseKey', 'CoseKeySet'], mut=0.05)
+        # repeated labels among neighbours of every kind (the stream of C12, restricted to keys): "pairwise distinct labels"
+        ops += [mk(o['op'], k='dup-key') for o in C12().gen(seed + 3, tier) if o['meta'].get('k') == 'dup:CoseKey']
         return ops
 
 # ===================================================================== C11
